@@ -38,7 +38,7 @@ Section Inv.
   Proof.
     intros (Hpc & Hwf & Hdep). destruct o as [r0| |]; cbn [ostep_run].
     - (* G_add *)
-      destruct (add_ok n users_first s r0) eqn:Eok; [|repeat split; assumption].
+      destruct (add_ok n users_first s r0) eqn:Eok; [|exact (conj Hpc (conj Hwf Hdep))].
       unfold add_ok in Eok. rewrite !andb_true_iff in Eok. destruct Eok as [[Ek _] Edeps].
       apply Nat.ltb_lt in Ek. rewrite forallb_forall in Edeps.
       unfold OInv; cbn [o_queue o_arena o_pc]. split; [exact Hpc|]. split.
@@ -59,7 +59,7 @@ Section Inv.
         * left. apply live_iff. apply live_iff in L. exact L.
         * right. exists r'. rewrite in_app_iff. tauto.
     - (* A_drain *)
-      destruct (o_pc s <? n) eqn:Epc; [|repeat split; assumption]. apply Nat.ltb_lt in Epc.
+      destruct (o_pc s <? n) eqn:Epc; [|exact (conj Hpc (conj Hwf Hdep))]. apply Nat.ltb_lt in Epc.
       set (k := o_pc s) in *.
       assert (Hmem : forall r, In r (filter (fun r => negb (r_kind r =? k)) (o_queue s) ++ o_arena s ++ filter (fun r => r_kind r =? k) (o_queue s))
                                <-> In r (o_queue s ++ o_arena s)).
@@ -81,12 +81,12 @@ Section Inv.
         * left. apply live_iff. exists r'. cbn [o_arena]. rewrite in_app_iff. tauto.
         * assert (Kd : r_kind r' = fst d) by (rewrite <- E; reflexivity).
           destruct (Nat.eq_dec (fst d) k) as [Eq|Ne].
-          -- left. apply live_iff. exists r'. cbn [o_arena]. rewrite in_app_iff, filter_In. right.
-             split; [exact Hq|]. split; [|exact E]. apply Nat.eqb_eq. lia.
+          -- left. apply live_iff. exists r'. cbn [o_arena]. split; [|exact E]. rewrite in_app_iff, filter_In. right.
+             split; [exact Hq|]. apply Nat.eqb_eq. lia.
           -- right. exists r'. rewrite filter_In. repeat split; [exact Hq| |exact E|lia].
              apply negb_true_iff, Nat.eqb_neq. lia.
     - (* A_process *)
-      destruct (o_pc s =? n) eqn:Epc; [|repeat split; assumption]. apply Nat.eqb_eq in Epc.
+      destruct (o_pc s =? n) eqn:Epc; [|exact (conj Hpc (conj Hwf Hdep))]. apply Nat.eqb_eq in Epc.
       unfold OInv; cbn [o_queue o_arena o_pc]. split; [lia|]. split; [exact Hwf|].
       intros r d Hr Hd. left. destruct (Hdep r d Hr Hd) as [L|[r' [Hq [E P]]]].
       + apply live_iff. apply live_iff in L. exact L.
